@@ -687,12 +687,13 @@ def item_templates(ctx, rid):
                     "`#derives #docs pub struct #ident #generics #fields #semi`; `;` iff the struct is a unit or tuple struct; marker from the unused-parameter set")
     else:
         ctx.bad(rid, "item/struct", fn["sp"], "no Struct arm")
-    EV = "elem(%s.variants)" % E
-    VAR = ("for(%s.variants){T[#0 #1 #2 #3](then(P0.insert_codec_attributes,T[# [ codec ( index = #0 ) ]](Literal::u8_unsuffixed(%s.0))),"
-           "%s.1.docs,%s.1.name,%s)}") % (E, EV, EV, EV, enum_fields_exp(EV + ".1"))
+    # the list of variants (a loop over the IR's variants, then the optional marker variant) under `#( #variants , )*` reads as its pieces: one
+    # repetition of `variant ,` over the variants, then the optional `__Ignore(..) ,`
+    VAR = ("Iterator::map(%s.variants,|1|{T[#0 #1 #2 #3 ,](then(P0.insert_codec_attributes,T[# [ codec ( index = #0 ) ]](Literal::u8_unsuffixed(C1_0.0))),"
+           "C1_0.1.docs,C1_0.1.name,%s)})") % (E, enum_fields_exp("C1_0.1", inner="C2_0"))
     PH = "TypeParameters::unused_params_phantom_data(P0.type_params)"
-    VARS = "vec+(%s,if(let v1::Some($)=%s){T[__Ignore ( #0 )](%s@v1::Some.0)}else{'()'})" % (VAR, PH, PH)
-    exp_enum = "Extend::extend(P1,T[#0 #1 pub enum #2 #3 { #( #4 , )* }](P0.derives,TypeIR::docs(P0),TypeIR::ident(P0),P0.type_params,%s))" % VARS
+    exp_enum = ("Extend::extend(P1,T[#0 #1 pub enum #2 #3 { #( #4 )* #5 }](P0.derives,TypeIR::docs(P0),TypeIR::ident(P0),P0.type_params,%s,"
+                "Option::map(%s,|1|{T[__Ignore ( #0 ) ,](C1_0)})))") % (VAR, PH)
     if "Enum" in arms:
         expect_term(ctx, rid, "item/enum", fn["sp"], arms["Enum"], exp_enum,
                     "`#derives #docs pub enum #ident #generics { #(#variants,)* }`; variants in order, each `#[codec(index = v.index)]`(iff flag) docs ident fields; "
@@ -724,12 +725,13 @@ def struct_fields_exp(C):
                                         "Option::map(%s,|1|{T[#0 pub #1](%s,C1_0)}))" % (C, CA("C1_0", FL_GEN), ST_GEN, PH_GEN, SKIP))])
 
 
-def enum_fields_exp(C):
-    """the field list of an enum variant for the composite C"""
+def enum_fields_exp(C, inner="C1_0"):
+    """the field list of an enum variant for the composite C (inner: how the per-field closure's parameter reads at that nesting depth)"""
+    X = inner
     return q.mk_match(C + ".kind", [
         ("CompositeIRKind::NoFields", "T[]()"),
-        ("CompositeIRKind::Named($)", "T[{ #( #0 )* }](Iterator::map(%s.kind@CompositeIRKind::Named.0,|1|{T[#0 #1 : #2 ,](%s,C1_0.0,ToTokensWithSettings::to_token_stream(C1_0.1,%s))}))" % (C, CA("C1_0.1", FL_GEN), ST_GEN)),
-        ("CompositeIRKind::Unnamed($)", "T[( #( #0 )* )](Iterator::map(%s.kind@CompositeIRKind::Unnamed.0,|1|{T[#0 #1 ,](%s,ToTokensWithSettings::to_token_stream(C1_0,%s))}))" % (C, CA("C1_0", FL_GEN), ST_GEN))])
+        ("CompositeIRKind::Named($)", "T[{ #( #0 )* }](Iterator::map(%s.kind@CompositeIRKind::Named.0,|1|{T[#0 #1 : #2 ,](%s,%s.0,ToTokensWithSettings::to_token_stream(%s.1,%s))}))" % (C, CA(X + ".1", FL_GEN), X, X, ST_GEN)),
+        ("CompositeIRKind::Unnamed($)", "T[( #( #0 )* )](Iterator::map(%s.kind@CompositeIRKind::Unnamed.0,|1|{T[#0 #1 ,](%s,ToTokensWithSettings::to_token_stream(%s,%s))}))" % (C, CA(X, FL_GEN), X, ST_GEN))])
 
 
 def field_templates(ctx, rid, strict_alloc=True):
@@ -743,17 +745,17 @@ def field_templates(ctx, rid, strict_alloc=True):
     for x in subterms(t):
         if x[0] == "tpl" and x[2] == "#0 #1 pub struct #2 #3 #4 #5" and len(x[3]) == 6:
             slot_s = x[3][4]
-        if x[0] == "tpl" and x[2] == "#0 #1 #2 #3" and len(x[3]) == 4 and slot_e is None:
+        if x[0] == "tpl" and x[2] in ("#0 #1 #2 #3", "#0 #1 #2 #3 ,") and len(x[3]) == 4 and slot_e is None:
             slot_e = x[3][3]
     S = "P0.kind@TypeIRKind::Struct.0"
-    EV = "elem(P0.kind@TypeIRKind::Enum.0.variants).1"
+    EV = "C1_0.1"
     if slot_s is None or slot_e is None:
         ctx.bad(rid, "missing-anchor/field-emitters", fn["sp"], "the field slot of the struct template / of the variant template was not found in TypeIR::to_tokens")
         return
     expect_term(ctx, rid, "fields/struct", fn["sp"], slot_s, struct_fields_exp(S),
                 "unit: `(pub #marker)` iff marker; named: `{ #(#[codec(compact)]? pub name: ty,)* #[codec(skip)]? pub __ignore: marker }`; tuple likewise; "
                 "compact attribute iff is_compact && flag; fields in IR order")
-    expect_term(ctx, rid, "fields/enum", fn["sp"], slot_e, enum_fields_exp(EV),
+    expect_term(ctx, rid, "fields/enum", fn["sp"], slot_e, enum_fields_exp(EV, inner="C2_0"),
                 "variant fields: same slots as the struct emitter without `pub` and without marker (sibling agreement)")
     bw = [b for b in q.fn_by_suffix(ctx.P, "ToTokensWithSettings>::to_tokens", "scale_typegen") if "CompositeFieldIR as" in b["path"]]
     if len(bw) != 1:
